@@ -767,7 +767,7 @@ class Poly2d:
         AA[:, 2] = x
         AA[:, 3] = x * y
 
-        cc, *_ = np.linalg.lstsq(AA, bb, rcond=-1)
+        cc, *_ = np.linalg.lstsq(AA, bb, rcond=1e-12)
         assert cc.shape == (4, 2)
 
         # denorm output side, assumes `sx==sy`
